@@ -172,7 +172,7 @@ func (in *c15inst) Key() string {
 	for _, l := range []string{"A", "B"} {
 		mem := "(not cached)"
 		if loc := in.sys.VerifCachedLocation(l); loc != nil {
-			mem = core.VerifDumpJSON(loc.VerifState())
+			mem = core.VerifKeyJSON(loc.VerifState())
 		}
 		sb.WriteString("|" + mem + "|" + lib.Canon(lib.Pairs(lib.Ctx(), in.store, l)))
 	}
